@@ -220,17 +220,14 @@ Section ExtractSteps.
                       ++ ext_objs ext ++ near_objs nears).
       + rewrite <- !app_assoc. rewrite (Permutation_app_swap_app (filter (ex_in c true) (g_objs g))).
         apply Permutation_app_head. rewrite (app_assoc (ext_objs ext)).
-        rewrite (Permutation_app_comm (ext_objs ext ++ near_objs nears)). rewrite <- app_assoc. reflexivity.
+        apply Permutation_app_comm.
       + rewrite (filter_partition_perm (ex_in c true) (g_objs g)). apply (iv_objs _ _ _ _ _ _ I).
     - unfold piece_ok. rewrite Erem. simpl. apply perm_filter_notmem.
       + exact NDO.
-      + eapply Permutation_NoDup; [|apply NoDup_filter; exact ND]. instantiate (1 := fun x => negb (mem x (tids c))).
-        apply NoDup_Permutation; [apply NoDup_filter; exact ND | |].
-        * rewrite EF in ND. rewrite fids_app, fids_cons in ND. rewrite fids_app.
-          apply NoDup_app_intro; [eapply NoDup_app_l; exact ND | apply NoDup_app_r in ND; eapply NoDup_app_r; exact ND|].
-          intros x H1 H2. eapply NoDup_app_disj; [exact ND | exact H1 | apply in_app_iff; right; exact H2].
-        * intro x. rewrite filter_In, negb_true_iff, mem_false, InRem. tauto.
-      + intro x. rewrite InRem, (inv_obj_in g0 g ext xs nears cs I). tauto.
+      + pose proof ND as ND2. rewrite EF in ND2. rewrite fids_app, fids_cons in ND2. rewrite fids_app.
+        apply NoDup_app_intro; [eapply NoDup_app_l; exact ND2 | apply NoDup_app_r in ND2; eapply NoDup_app_r; exact ND2|].
+        intros y H1 H2. eapply NoDup_app_disj; [exact ND2 | exact H1 | apply in_app_iff; right; exact H2].
+      + intro y. rewrite InRem, (inv_obj_in g0 g ext xs nears cs I). tauto.
     - apply (iv_piece_ext _ _ _ _ _ _ I).
     - apply Forall_app. split; [apply (iv_piece_near _ _ _ _ _ _ I)|]. constructor; [|constructor].
       split.
@@ -243,8 +240,8 @@ Section ExtractSteps.
     - eapply Forall2_impl_in; [|apply (iv_extp _ _ _ _ _ _ I)]. cbv beta. intros d pe Hd [H1 H2]. split; [exact H1|].
       rewrite Erem. apply InRem. split; [exact H2 | apply Hno; exact Hd].
     - apply ex_rem_ends.
-    - rewrite Erem. pose proof (iv_near_f _ _ _ _ _ _ I) as H. rewrite EF in H.
-      rewrite forallb_app in *. simpl in H. apply andb_true_iff in H as [H1 H2]. apply andb_true_iff in H2 as [_ H2].
+    - rewrite Erem. pose proof (iv_near_f _ _ _ _ _ _ I) as Hnf. rewrite EF in Hnf.
+      rewrite forallb_app in *. simpl in Hnf. apply andb_true_iff in Hnf as [H1 H2]. apply andb_true_iff in H2 as [_ H2].
       rewrite H1, H2. reflexivity.
   Qed.
 End ExtractSteps.
